@@ -212,6 +212,24 @@ def trips_known(c):
     return None
 
 
+def well_formed(c):
+    """A case the program generator can express: in `checked` mode only the accesses that have a checked form may be
+    rejected (a rejected pointer move or N-D / member write would end the run); pointer ops need a pointer."""
+    if trips_known(c):
+        return False
+    ops = c["ops"]
+    first_ptr = next((i for i, o in enumerate(ops) if o[0] not in ("R", "W")), None)
+    if first_ptr is not None and ops[first_ptr][0] != "A":
+        return False
+    sr, _ = spec_run(c)
+    if c["mode"] == "checked":
+        named1 = len(c["dims"]) == 1 and kind_of(c["loc"]) == "N"
+        for o, r in zip(ops, sr):
+            if r == "E" and not (o[0] in ("R", "PR", "PW", "DA", "D") or (o[0] == "W" and named1)):
+                return False
+    return True
+
+
 # ================================================================== Cb program text
 def ty(dims):
     return "int" + "".join("[%d]" % d for d in dims)
@@ -616,7 +634,7 @@ def shrink_case(impl_dir, c, still_bad):
             if first_ptr is not None and cand[first_ptr][0] != "A":
                 continue
             c2 = dict(c, ops=cand)
-            if still_bad(c2):
+            if well_formed(c2) and still_bad(c2):
                 ops = cand
                 changed = True
                 break
@@ -802,7 +820,7 @@ def run(rep):
             seqs.append(c)
     for k in range(n_seq):
         c = rand_case(rng_for(seed, "c05-seq", k), tier)
-        if trips_known(c):
+        if not well_formed(c):
             avoided += 1
             continue
         seqs.append(c)
